@@ -142,7 +142,7 @@ def run_tlc(module, cfg, workdir, workers=None, timeout=1800, extra=None, heap=N
     java = ["java", "-XX:+UseParallelGC"]
     if heap:
         java.append("-Xmx%s" % heap)
-    java += ["-Xss64m"]
+    java += ["-Xss64m", "-Djava.io.tmpdir=%s" % workdir]   # TLC's tlc-<n> temp dirs go away with the scratch dir
     if dfs:
         java.append("-Dtlc2.tool.queue.IStateQueue=StateDeque")
     cmd = java + ["-cp", TLC_JAR, "tlc2.TLC", "-workers", str(workers or "auto"), "-metadir", meta,
